@@ -13,6 +13,10 @@ spec/UtxoRec.tla   the record grammar in both formats as cell streams (CompactSi
      concretised and taken through Serialize -> NewUtxoRec / FullUtxoRec / NewUtxoRecStatic / NewUtxoRecOwn(cbs) /
      OneUtxoRec in BOTH formats, directly and through the package-level function variables; every behaviour of the
      snapshot machine is run on a real UnspentDB, one child process per Open.  The oracle is the identity.
+     Generated sets whose sizes sit around the snapshot loader's pack size (65535 / 65536 / 65537 / 131073 records) and
+     wide blocks (thousands of multi-output records per block: UnspentDB.commit serialises them from many goroutines
+     over SerializeC's shared scratch pool) are committed, read back live, saved and read back in a new process; the
+     wide blocks run once more under the Go race detector (a report inside lib/utxo is a violation).
   3. seeded random records (near-template mutations, random survivor subsets, amounts up to 2^64-1), random sets
      through Save / reload with every create x reopen option, and the same through chain.NewChainExt(CompressUTXO).
   4. binding self-test: corrupted expectations must be rejected.
@@ -22,13 +26,13 @@ import copy, json, os, threading
 from vf import Infra
 
 ALL = ["TypeOK", "StoreLoadIdentity", "AllSpentNotStored", "OneOutAgrees", "OneOutIdentity", "AmtRoundTrip", "MoneyFits",
-       "HeaderSame", "SnapReadIdentity", "HeaderNamesCodec", "FileIsTruth"]
+       "HeaderSame", "SnapReadIdentity", "HeaderNamesCodec", "FileIsTruth", "LoaderComplete", "PoolSerialised"]
 
 # deliberately broken rule -> (parts to enumerate, invariant that has to notice)
 BUGS = [("escape5", '"single"', "StoreLoadIdentity"), ("swap23", '"single"', "StoreLoadIdentity"), ("cb_lost", '"height"', "StoreLoadIdentity"),
         ("one_next", '"shape"', "OneOutAgrees"), ("idx_w", '"index"', "StoreLoadIdentity"), ("amt_e9", '"single"', "AmtRoundTrip"),
         ("noncanon", '"single"', "StoreLoadIdentity"), ("fresh_bit_only", '"snap"', "SnapReadIdentity"),
-        ("fresh_bit_only", '"snap"', "HeaderNamesCodec")]
+        ("fresh_bit_only", '"snap"', "HeaderNamesCodec"), ("pack_short", '"height"', "LoaderComplete"), ("pool_unlocked", '"pool"', "PoolSerialised")]
 
 
 def lanes(ctx, jobs, width):
@@ -150,7 +154,7 @@ def run(ctx):
         return job
 
     mc = [mcjob('"single","height","dense"', stride=5 if quick else 1, big=big), mcjob('"shape"', maxouts=2 if quick else 3, scrsel=8 if quick else 12, big=big),
-          mcjob('"index"', nlanes=4, lane=ctx.seed % 4), mcjob('"snap"', maxopens=3, maxspends=2)]
+          mcjob('"index"', nlanes=4, lane=ctx.seed % 4), mcjob('"snap","pool"', maxopens=3, maxspends=2)]
     res = lanes(ctx, mc + [bugjob(*b) for b in BUGS], width)
     for d, g in res[:len(mc)]:
         states += d
@@ -170,7 +174,11 @@ def run(ctx):
         jobs.append(export_lane("index%d" % l, defs(ctx, '"index"', lane=l, nlanes=4), 3000, True))
     jobs.append(export_lane("misc", defs(ctx, '"height","dense"', big=big), 3000, True))
     jobs.append(export_lane("snap", defs(ctx, '"snap"', maxopens=3, maxspends=1 if quick else 2), 3000, False))
+    # sets around the snapshot loader's pack size and wide blocks that make commit serialise from many goroutines
+    jobs.append(export_lane("bulk", defs(ctx, '"bulkq"' if quick else '"bulk"'), 3000, True))
     allpath = os.path.join(ctx.scratch, "lines-all.json")
+    widepath = os.path.join(ctx.scratch, "lines-wide.json")
+    nwide = 0
     nlines = 0
     first_rec = first_snap = None
     with open(allpath, "w") as fo:
@@ -181,6 +189,10 @@ def run(ctx):
             with open(path) as fi:
                 for i, l in enumerate(fi):
                     fo.write(l)
+                    if tag == "bulk" and '"k":"wide"' in l:
+                        with open(widepath, "a") as fw:
+                            fw.write(l)
+                        nwide += 1
                     if tag == "shape0" and i in (3, 40, 400):
                         j = json.loads(l)
                         ctx.sample({"case": j["c"], "record": {"n": j["rec"]["n"], "coinbase": j["rec"]["cb"], "height_digits_lsd_first": j["rec"]["h"],
@@ -202,6 +214,19 @@ def run(ctx):
         raise Infra("replay saw %d of %d lines" % (summ["lines"], nlines))
     evaluations = summ["evaluations"]
     distinct = summ["distinct"]
+
+    # the wide blocks once more under the Go race detector: unsynchronised access inside lib/utxo while records are
+    # serialised is a stored record about to be changed, whether or not this run's schedule made it visible
+    if nwide == 0:
+        raise Infra("no wide case exported")
+    racebin = ctx.build("utxorec", race=True)
+    ws, wf = run_driver(ctx, [racebin, "replay", "-in", widepath, "-seed", str(ctx.seed), "-workers", "2", "-dir", os.path.join(ctx.scratch, "race")])
+    report(ctx, wf, "race")
+    if ws["lines"] != nwide and not wf:
+        raise Infra("race run saw %d of %d lines" % (ws["lines"], nwide))
+    evaluations += ws["evaluations"]
+    ctx.cov["race_detector"] = {"wide_sets_run_with_-race": nwide, "processes": ws["processes"], "reports": len(wf)}
+    ctx.log("race detector: %d wide sets, %d processes, %d failures" % (nwide, ws["processes"], ws["fail"]))
 
     # ---- 3. seeded random records and sets, and the chain-level path
     nr = 3000 if quick else 200000
@@ -230,7 +255,8 @@ def run(ctx):
         "evaluations": evaluations, "distinct_nontrivial": distinct, "exhaustive": True,
         "rule": "TLC enumerates every case of spec/UtxoRec.tla under the constants of checks/c10.py (single: every script class x every amount class; "
                 "shape: 1..3 outputs x every survivor subset x script classes; index: 2n+coinbase and survivor indices at the CompactSize boundaries; "
-                "heights; dense records; every behaviour of the snapshot machine that ends with a reload or the last Close) and the driver adds seeded random "
+                "heights; dense records; generated sets of 65535 / 65536 / 65537 / 131073 one-output records (the snapshot loader's pack size) and wide blocks of "
+                "1500..3000 records x 40..60 outputs committed concurrently, read back live and after reload; every behaviour of the snapshot machine that ends with a reload or the last Close) and the driver adds seeded random "
                 "records / sets. evaluations = comparisons made on the real code (one per decoder call or single-output lookup or set read whose result was "
                 "compared with the stored record). distinct_nontrivial = number of DISTINCT serialised records (sha256 of the bytes Serialize produced, per "
                 "format) with at least one unspent output that went through the decoders, counted by the driver; all-spent records, repeated byte strings and "
